@@ -1077,4 +1077,45 @@ theorem certificate_implies_spec (x out : Img Rat) (mask : Nat → Nat → Bool)
   rw [specBlocks_congr x out _ mask b0 b1 padMode part hd, specConserved_congr x out _ hd]
   exact ⟨hB, hC⟩
 
+/-- **Block shuffling is a permutation of whole blocks**, at the level of blocks: for every permutation `nidx` of the
+selected flat indices, the list of selected blocks of the model's result is a rearrangement of the list of selected
+blocks of the working array (`specBlockMultiset`, which the check evaluates on the implementation's output whenever every
+selected block lies inside the image: shape a multiple of the block, or in-place mode).  Strictly more than
+"values conserved + every output block equals some input block": see the `example` below. -/
+theorem model_block_multiset (x : Img Rat) (mask : Nat → Nat → Bool) (b0 b1 : Nat)
+    (padMode part : Bool) (nidx : List Nat) (hp : nidx.Perm (shuffleIdx x mask b0 b1 padMode part)) :
+    specBlockMultiset x (shuffleBlocks x mask b0 b1 padMode part nidx) mask b0 b1 padMode part = true := by
+  unfold specBlockMultiset
+  rw [List.isPerm_iff]
+  have hkey : ∀ f ∈ shuffleIdx x mask b0 b1 padMode part,
+      blockKey (shuffleBlocks x mask b0 b1 padMode part nidx).get b0 b1 b0 b1
+        (f / nBlocks (prepare x mask b0 b1 padMode).N1 b1) (f % nBlocks (prepare x mask b0 b1 padMode).N1 b1)
+      = blockKey (prepare x mask b0 b1 padMode).X b0 b1 b0 b1
+        (src (shuffleIdx x mask b0 b1 padMode part) nidx f / nBlocks (prepare x mask b0 b1 padMode).N1 b1)
+        (src (shuffleIdx x mask b0 b1 padMode part) nidx f % nBlocks (prepare x mask b0 b1 padMode).N1 b1) := by
+    intro f hf
+    rw [blockKey_eq_iff]
+    intro o ho
+    rw [mem_pixels] at ho
+    exact (blocks_from_input x mask b0 b1 padMode part nidx hp f hf).2 o.1 o.2 ho.1 ho.2
+  have h1 := List.map_congr_left hkey
+  unfold shuffleIdx at h1 hp
+  rw [h1]
+  rw [map_src_eq _ nidx hp (selected_nodup _ _ _ _ _ _)
+    (fun g => blockKey (prepare x mask b0 b1 padMode).X b0 b1 b0 b1
+      (g / nBlocks (prepare x mask b0 b1 padMode).N1 b1) (g % nBlocks (prepare x mask b0 b1 padMode).N1 b1))]
+  exact hp.map _
+
+/-- a 1×4 line `[1, 2, 2, 1]` in blocks of two: `[1, 2, 1, 2]` conserves the values and consists of input blocks only,
+but uses the block `[1, 2]` twice - not a permutation of blocks -/
+example :
+    let x : Img Rat := ⟨1, 4, fun _ j => if j = 0 ∨ j = 3 then 1 else 2⟩
+    let bad : Img Rat := ⟨1, 4, fun _ j => if j % 2 = 0 then 1 else 2⟩
+    ((pixels 1 4).map (fun q => bad.get q.1 q.2)).Perm ((pixels 1 4).map (fun q => x.get q.1 q.2)) ∧
+    specBlocks x bad (fun _ _ => true) 1 2 false false = true ∧
+    specOutside x bad (fun _ _ => true) 1 2 false false = true ∧
+    specBlockMultiset x bad (fun _ _ => true) 1 2 false false = false ∧
+    specBlockMultiset x (shuffleBlocks x (fun _ _ => true) 1 2 false false [1, 0]) (fun _ _ => true) 1 2 false false = true := by
+  decide +kernel
+
 end Pew.Colocal
